@@ -59,6 +59,26 @@ type zooResult struct {
 	quads   []rdf.Quad
 	offs    []encoding.StatementTextOffsets
 	proto   string
+	errOffs []cursorio.TextOffsetRange // text positions attached to the final error (a single offset is an empty range)
+}
+
+// zooErrOffsets collects the text positions carried by an error chain.
+func zooErrOffsets(err error) []cursorio.TextOffsetRange {
+	var out []cursorio.TextOffsetRange
+	for i := 0; err != nil && i < 50; i++ {
+		switch e := err.(type) {
+		case cursorio.OffsetError:
+			if o, ok := e.Offset.(cursorio.TextOffset); ok {
+				out = append(out, cursorio.TextOffsetRange{From: o, Until: o})
+			}
+		case cursorio.OffsetRangeError:
+			if o, ok := e.OffsetRange.(cursorio.TextOffsetRange); ok {
+				out = append(out, o)
+			}
+		}
+		err = errors.Unwrap(err)
+	}
+	return out
 }
 
 func zooReader(data []byte, o zooOpts) io.Reader {
@@ -233,6 +253,7 @@ func zooRun(name string, data []byte, o zooOpts) zooResult {
 			res.verdict, res.detail = "io", e1.Error()
 		default:
 			res.verdict, res.detail = "error", e1.Error()
+			res.errOffs = zooErrOffsets(e1)
 		}
 	}()
 	limit := 3*time.Second + time.Duration(len(data)/1024)*2*time.Second
